@@ -873,8 +873,10 @@ pub fn expand_env(sh: &Shell, tokens: &mut types::Tokens) {
     for (i, text) in buff.iter().rev() {
         // a value is data: operator characters it brings into an unquoted
         // word must not be read as syntax by the later passes
+        // (a word in which a redirection is written, like `2>$F`, keeps it)
         if tokens[*i].0.is_empty() && !in_assignment_prefix(tokens, *i)
-                && !has_operator_char(&tokens[*i].1) && has_operator_char(text) {
+                && !tokens[*i].1.contains('<') && !tokens[*i].1.contains('>')
+                && has_operator_char(text) {
             tokens[*i].0 = String::from("\"");
         }
         tokens[*i].1 = text.to_string();
